@@ -424,3 +424,46 @@ package render
 //@ ensures renderError: nerr != nil ==> result1 != nil
 //@ ensures errorMeansEmpty: result1 != nil ==> result0 == ""
 //@ ensures once: renders <= 1
+
+// ---- block syntax table entries (C06): what the parser's grammar predicates mean --------
+//@ typeinv render.blockSyntax: true
+
+//@ func (*render.blockSyntax).IsBlockStart
+//@ reads
+//@ props C06 C01
+//@ assigns nothing
+//@ ensures def: result == (!s.isClauseTag && !s.isEndTag)
+
+//@ func (*render.blockSyntax).IsClause
+//@ reads
+//@ props C06 C01
+//@ assigns nothing
+//@ ensures def: result == s.isClauseTag
+
+//@ func (*render.blockSyntax).IsBlockEnd
+//@ reads
+//@ props C06 C01
+//@ assigns nothing
+//@ ensures def: result == s.isEndTag
+
+//@ func (*render.blockSyntax).RequiresParent
+//@ reads
+//@ props C06 C01
+//@ assigns nothing
+//@ ensures def: result == (s.isClauseTag || s.isEndTag)
+
+//@ func (*render.blockSyntax).TagName
+//@ reads
+//@ props C06 C01
+//@ assigns nothing
+//@ ensures def: result == s.name
+
+// an end tag closes exactly its own block; a clause needs a parent that lists it
+//@ func (*render.blockSyntax).CanHaveParent
+//@ reads
+//@ props C06 C01
+//@ panics nothing
+//@ assigns nothing
+//@ ensures clause: s.isClauseTag ==> result == (parent != nil && mapget(s.parents, parent.TagName()))
+//@ ensures end: !s.isClauseTag && s.isEndTag ==> result == (parent != nil && parent.TagName() == s.startName)
+//@ ensures start: !s.isClauseTag && !s.isEndTag ==> result
